@@ -244,7 +244,8 @@ class OutputReference:
                     break
                 overlap += 1
 
-            if overlap > largest_overlap:
+            # VV: The scope must be a prefix of the location, partially overlapping scopes are unrelated
+            if overlap == len(other_loc) and overlap > largest_overlap:
                 best = other_loc
                 largest_overlap = overlap
 
@@ -1612,7 +1613,9 @@ class ScopeStack:
                             try:
                                 producer = self.scopes[tuple(location)]
                                 if isinstance(producer.template, Component) is False:
-                                    continue
+                                    # VV: The reference stops at a Workflow (whose parents are Workflows too),
+                                    # there is no producer Component to inspect
+                                    producer = None
                                 break
                             except KeyError:
                                 # VV: This location doesn't map to a component. The OutputReference must be pointing
